@@ -482,6 +482,12 @@ class IntEnc:
                 f0, l0, h0 = self.F(x)
                 f1, l1, h1 = self.F(y)
                 return f0 + f1, l0 + l1, h0 + h1
+            # range-based disjointness: a constant whose lowest set bit lies above the other operand's range
+            for u, v in ((x, y), (y, x)):
+                if not isinstance(v, Term) and isinstance(u, Term) and v:
+                    fu, lu, hu = self.F(u)
+                    if lu >= 0 and hu < (v & -v):
+                        return fu + Lin(v), lu + v, hu + v
             if w == 1:
                 f0, _, _ = self.F(x)
                 f1, _, _ = self.F(y)
